@@ -142,6 +142,8 @@ def gen_plan(rng):
     env = {}
     for _ in range(rng.randint(0, 3)):
         env[rng.choice(["C18_NEW", "PATH", "C18_EMPTY", "C18_PARENT_ONLY", "LANG"])] = rng.choice(["", "v1", "/x:/y", "0"])
+    if rng.random() < 0.6:
+        env["C18_COUNT"] = rng.choice([4, 0, 12])           # a value that is not a string (a thread count): it reaches the worker as str(value)
     deaths = [("exit", rng.choice([0, 1, 2, 3, 77, 255])), ("exit", rng.randrange(256)),
               ("signal", rng.choice([9, 15, 11, 6])), ("signal", rng.choice([1, 3, 10, 12, 14]))]
     return {"fds": fds, "env": env, "deaths": deaths, "timeout": rng.choice([None, 0.3])}
@@ -158,7 +160,7 @@ def check_one(plan, got, res):
         if leaked:
             bad.append(f"worker {w['pid']} inherited parent descriptors {leaked}")
         for k in got["parent_env"]:
-            want = plan["env"][k] if k in plan["env"] else got["parent_env"][k]
+            want = str(plan["env"][k]) if k in plan["env"] else got["parent_env"][k]
             if w["env"].get(k) != want:
                 bad.append(f"worker env {k}={w['env'].get(k)!r}, expected {want!r}")
         if w["init"] != "tagged":
